@@ -1,2 +1,335 @@
-(* Props.C01 — placeholder; theorems are being added. *)
-Require Import PyStr Writer.
+(* Props.C01 — numeric curve data survives write -> read within the printed precision.
+   Statements only; proofs in Proofs/SplitWsFacts.v, Proofs/TextWrapProofs.v,
+   Proofs/WriteDataProofs.v (which reuse Proofs/RegexSubFacts.v and Proofs/DataReadProofs.v).
+
+   Reading.  The in-memory data is an r x c matrix `rows` of cells (r >= 1, c >= 1), a cell
+   being CNum t (a finite sample, identified by a text t that denotes it) or CNaN.  The writer
+   (Model/Writer.v, data part of `write`) prints cell (i, j) as the text
+        tok i j = fmtv (col_fmt o j) t      for CNum t   (fmtv f t = f % x, ORACLE)
+        tok i j = nt                        for CNaN     (nt = str(NULL value))
+   (field_tok; tok_matrix fmtv o nt rows = the r x c matrix of these texts), puts the spacer
+   (lhs_spacer for column 0) in front, right-justifies in len_numeric_field when there is one
+   (field_width), concatenates the fields of a row (row_text) and, when WRAP is YES, passes
+   every row through textwrap (PyLib/TextWrap.v wrap, width = data_width).  The reader splits
+   the physical lines (numpy engine: str.split after the comment cut; normal engine: the read
+   substitutions, ^Z removal, sow_regex.findall), and, for the normal engine, flattens all
+   tokens and reshapes them by the column count (Model/DataRead.v).
+
+   "Recovered to within half a unit of the last printed digit" is read as: THE TOKEN THAT
+   REACHES float() ON THE WAY BACK IS EXACTLY THE TEXT  fmt % x  THAT WAS WRITTEN, in the same
+   row and column: cell (i, j) of the result is  mk_num fhex (tok i j)  (mk_num t = the double
+   float(t), NaN cell when float(t) is nan).  That float(fmt % x) is within half a unit of the
+   last printed digit of x is the ORACLE assumption that CPython's % and float() are correctly
+   rounded; it is outside lasio and is not modelled.
+
+   Proved at full strength (unbounded numbers of rows and columns, any width, any format text):
+     C01_padded_tokens     str.split() of  pad_0 t_0 pad_1 t_1 ...  is  [t_0; t_1; ...] when the
+                           t_k are non-empty and white-space-free, the pad_k are white space and
+                           pad_k, k >= 1, is non-empty;
+     C01_row_tokens        a written row splits back into exactly its field texts, provided
+                           they are non-empty and white-space-free, the spacers are white space
+                           and every column >= 1 is "separated" (spacer non-empty, or the
+                           right-justification really pads that field); the row is produced
+                           (row_text = Some line);
+     C01_wrap_tokens       for EVERY text and EVERY width, flat_map split (wrap w s) = split s:
+                           wrapping never loses, splits, merges or reorders a token (the lines
+                           are cut only next to a blank chunk; long tokens go alone on a line);
+     C01_wrap_no_blank_line  no line returned by wrap is empty or made of blanks only (so no
+                           wrapped line is skipped or counted as an empty row);
+     C01_wrap_fits         a returned line longer than the width contains no blank (it is one
+                           over-long chunk; break_long_words=False);
+     C01_chunks            the chunk list of textwrap: its concatenation is the text, chunks
+                           are non-empty, homogeneous, and adjacent chunks differ in kind;
+     C01_nan_is_null, C01_nan_without_null, C01_num_is_fmt, C01_col_fmt
+                           NaN is written as the NULL text; without a NULL item the data lines
+                           are not produced (opt_all ... = None, which `write` turns into
+                           WErr WKeyError = Python's KeyError); a number is written as
+                           fmt % x with the per-column format when column_fmt has the column,
+                           else fmt;
+     C01_lines_defined, C01_lines_tokens, C01_wrapped_tokens
+                           with a NULL item the data lines are always produced; line i splits
+                           into row i of the token matrix; the flat token list of the wrapped
+                           lines is the flat token list of the unwrapped ones;
+     C01_data_roundtrip    (composition) for the written lines rts, with any line terminator
+                           eol that strip() removes ([] and "\n" are instances):
+                           UNWRAPPED  numpy_engine and normal_engine (every substitution list,
+                           column count c) return the same columns `cols`, and
+                           inspect_data_section (twice) sniffs c;
+                           WRAPPED at ANY width w  the normal engine with the declared column
+                           count c returns the same `cols`;
+                           cols has c columns, each with r cells, and column j is
+                           [mk_num (tok 0 j); mk_num (tok 1 j); ...]: same number of curves, same
+                           order, same number of rows, the token read back is the token written;
+     C01_roundtrip_cell    the same cell by cell: cols[j][i] = mk_num (field_tok ... rows[i][j]).
+   Hypotheses of C01_data_roundtrip (the domain; all decidable, checked by the harness):
+     * every tok i j is non-empty, white-space-free and float() accepts it (num_tok);
+     * lhs_spacer and spacer consist of white space; every row is `separated`;
+     * every PHYSICAL line handed to the reader is `clean` (clean_lineb, the character and
+       substitution clauses of C02's dom2_lineb): no '#', no double or single quote, no chr 26, and none of the
+       three read substitutions (comma-decimal-mark, run-on(-), run-on(.)) matches anywhere
+       in the stripped line (nomatchb = re.search is None).  This is a hypothesis on the
+       produced lines, NOT derived from the shape of numeric tokens (a per-pattern "cannot match
+       inside  digits[.digits][e+-dd]  tokens separated by blanks" lemma is not proved).
+   Not proved here / partial with respect to the property text:
+     * the composition is stated on the data lines (Writer.row_text / TextWrap.wrap ->
+       DataRead engines), not on Model/Read.v read (Model/Writer.v write ...): that the reader
+       derives c, WRAP and NULL from the written header (mnemonics, curve count) is the header
+       round trip (C03/C11) and is covered here only by the correspondence runs of the harness;
+     * NULL on the way back: the NULL text comes back as the numeric cell mk_num nt and is then
+       mapped to NaN by null_columns — C06_iff / C06_iff_cellwise; the index column is never
+       nulled — C06_index_kept (Props/C06.v);
+     * the numeric clause rests on the %/float() oracle (above).
+   Oracle / trust assumptions: fmtv (f % x), fmt_pi (width of the automatic numeric field),
+   fhex (float(tok)), genfromtxt as modelled in Model/DataRead.v, textwrap as modelled in
+   PyLib/TextWrap.v (validated on every generated row by the harness). *)
+From Coq Require Import List NArith Bool String.
+Import ListNotations.
+Require Import PyStr Regex Regexes NumLit TextWrap DataRead Writer.
+Require Import RegexSubFacts SplitWsFacts TextWrapProofs DataReadProofs WriteDataProofs.
+Open Scope string_scope.
+Open Scope list_scope.
+
+(* ---- 1. tokens of a written row ---------------------------------------------------------- *)
+Theorem C01_padded_tokens : forall pairs : list (list N * list N),
+  Forall (fun '(pad, t) => forallb is_space pad = true /\ t <> [] /\
+                           forallb (fun c => negb (is_space c)) t = true) pairs ->
+  Forall (fun '(pad, t) => pad <> []) (tl pairs) ->
+  split_ws (List.concat (map (fun '(pad, t) => pad ++ t) pairs)) = map snd pairs.
+Proof.
+  intros pairs H1 H2.
+  rewrite (map_ext (fun '(pad, t) => pad ++ t) padtok) by (intros [pad t]; reflexivity).
+  apply split_ws_padded.
+  - eapply Forall_impl; [|exact H1]. intros [pad t] H. exact H.
+  - eapply Forall_impl; [|exact H2]. intros [pad t] H. exact H.
+Qed.
+
+Theorem C01_row_tokens : forall fmtv fmt_pi o null_text (row : list cell) (toks : list (list N)),
+  List.length toks = List.length row ->
+  (forall j c, nth_error row j = Some c ->
+               cell_text fmtv (col_fmt o j) null_text c = Some (nth j toks [])) ->
+  Forall (fun t => t <> [] /\ forallb (fun c => negb (is_space c)) t = true) toks ->
+  forallb is_space (wo_lhs_spacer o) = true -> forallb is_space (wo_spacer o) = true ->
+  (forall j, (1 <= j < List.length toks)%nat ->
+     wo_spacer o <> [] \/
+     exists l, field_width fmt_pi o = Some l /\ (List.length (nth j toks []) < l)%nat) ->
+  exists line, row_text fmtv fmt_pi o null_text 0 row = Some line /\ split_ws line = toks.
+Proof. exact row_tokens. Qed.
+
+(* ---- 2. wrapping ------------------------------------------------------------------------- *)
+Theorem C01_wrap_tokens : forall (w : nat) (line : list N),
+  flat_map split_ws (TextWrap.wrap w line) = split_ws line.
+Proof. exact wrap_tokens. Qed.
+
+Theorem C01_wrap_no_blank_line : forall (w : nat) (s l : list N),
+  In l (TextWrap.wrap w s) -> l <> [] /\ forallb (fun c => (c =? 32)%N) l = false.
+Proof. exact wrap_no_blank_line. Qed.
+
+Theorem C01_wrap_fits : forall (w : nat) (s l : list N),
+  In l (TextWrap.wrap w s) ->
+  (List.length l <= w)%nat \/ forallb (fun c => negb (c =? 32)%N) l = true.
+Proof. exact wrap_fits. Qed.
+
+Theorem C01_chunks : forall s : list N,
+  List.concat (chunks s) = s /\
+  exists b, altk b (chunks s).
+Proof. intros s. split; [apply chunks_concat|apply chunks_altk]. Qed.
+
+(* ---- 3. cells ------------------------------------------------------------------------------ *)
+Theorem C01_nan_is_null : forall fmtv f nt, cell_text fmtv f (Some nt) CNaN = Some nt.
+Proof. exact cell_text_nan. Qed.
+
+Theorem C01_nan_without_null : forall fmtv fmt_pi o (rows : list (list cell)) row,
+  In row rows -> In CNaN row ->
+  cell_text fmtv (wo_fmt o) None CNaN = None /\
+  opt_all (map (row_text fmtv fmt_pi o None 0) rows) = None.
+Proof. intros. split; [reflexivity|eapply rows_nan_nonull; eassumption]. Qed.
+
+Theorem C01_num_is_fmt : forall fmtv f nt t, cell_text fmtv f nt (CNum t) = Some (fmtv f t).
+Proof. exact cell_text_num. Qed.
+
+Theorem C01_col_fmt : forall o j,
+  (forall f, NoDup (map fst (wo_column_fmt o)) -> In (j, f) (wo_column_fmt o) -> col_fmt o j = f) /\
+  (~ In j (map fst (wo_column_fmt o)) -> col_fmt o j = wo_fmt o).
+Proof. intros o j. split; [intros f; apply col_fmt_own|apply col_fmt_default]. Qed.
+
+(* ---- 4. the data lines and their way back ------------------------------------------------- *)
+Theorem C01_tok_matrix_nth : forall fmtv o nt (rows : list (list cell)) i j row c,
+  nth_error rows i = Some row -> nth_error row j = Some c ->
+  nth j (nth i (tok_matrix fmtv o nt rows) []) [] =
+  match c with CNum t => fmtv (col_fmt o j) t | CNaN => nt | CStr s => s end.
+Proof.
+  intros fmtv o nt rows i j row c Hi Hj. unfold tok_matrix.
+  rewrite (nth_indep _ [] (row_toks fmtv o nt [])), map_nth.
+  - rewrite (nth_error_nth _ _ _ Hi). apply row_toks_nth. exact Hj.
+  - rewrite map_length. apply nth_error_Some. rewrite Hi. discriminate.
+Qed.
+
+Theorem C01_lines_defined : forall fmtv fmt_pi o nt (rows : list (list cell)),
+  exists rts, opt_all (map (row_text fmtv fmt_pi o (Some nt) 0) rows) = Some rts /\
+              List.length rts = List.length rows.
+Proof.
+  intros. exists (map (row_line fmtv fmt_pi o nt) rows). split; [apply lines_defined|apply map_length].
+Qed.
+
+Theorem C01_lines_tokens : forall fmtv fmt_pi o nt (rows : list (list cell)) rts,
+  Forall (Forall good_tok) (tok_matrix fmtv o nt rows) ->
+  forallb is_space (wo_lhs_spacer o) = true -> forallb is_space (wo_spacer o) = true ->
+  Forall (separated fmt_pi o) (tok_matrix fmtv o nt rows) ->
+  opt_all (map (row_text fmtv fmt_pi o (Some nt) 0) rows) = Some rts ->
+  map split_ws rts = tok_matrix fmtv o nt rows.
+Proof. exact lines_tokens. Qed.
+
+Theorem C01_wrapped_tokens : forall (w : nat) (rts : list (list N)),
+  List.concat (map split_ws (flat_map (TextWrap.wrap w) rts)) = List.concat (map split_ws rts).
+Proof. exact wrapped_tokens. Qed.
+
+Theorem C01_data_roundtrip :
+  forall fmtv fmt_pi fhex fstr o nt subs (rows : list (list cell)) c rts eol,
+  (0 < c)%nat -> rows <> [] ->
+  Forall (fun row : list cell => List.length row = c) rows ->
+  let T := tok_matrix fmtv o nt rows in
+  Forall (Forall (num_tok fhex)) T ->
+  forallb is_space (wo_lhs_spacer o) = true -> forallb is_space (wo_spacer o) = true ->
+  Forall (separated fmt_pi o) T ->
+  forallb is_space eol = true ->
+  opt_all (map (row_text fmtv fmt_pi o (Some nt) 0) rows) = Some rts ->
+  let cols := map (map (mk_num fhex)) (transpose_n c T) in
+  (let body := map (fun l => l ++ eol) rts in
+   Forall (fun raw => clean_lineb raw = true) body ->
+   numpy_engine fhex body = Some cols /\
+   normal_engine fhex fstr DSpace subs c body = DOk cols /\
+   fst (inspect_twice DSpace body subs) = Some c) /\
+  (forall w, let wbody := map (fun l => l ++ eol) (flat_map (TextWrap.wrap w) rts) in
+   Forall (fun raw => clean_lineb raw = true) wbody ->
+   normal_engine fhex fstr DSpace subs c wbody = DOk cols) /\
+  List.length cols = c /\
+  forall j, (j < c)%nat ->
+    nth j cols [] = map (fun toks => mk_num fhex (nth j toks [])) T /\
+    List.length (nth j cols []) = List.length rows.
+Proof. exact data_roundtrip. Qed.
+
+Theorem C01_roundtrip_cell : forall fmtv fhex o nt (rows : list (list cell)) c i j row cell,
+  (j < c)%nat -> nth_error rows i = Some row -> nth_error row j = Some cell ->
+  nth_error (nth j (map (map (mk_num fhex)) (transpose_n c (tok_matrix fmtv o nt rows))) []) i =
+  Some (mk_num fhex (match cell with CNum t => fmtv (col_fmt o j) t | CNaN => nt | CStr s => s end)).
+Proof. exact roundtrip_cell. Qed.
+
+(* the domain predicate on a physical line is the character / substitution part of C02's *)
+Theorem C01_clean_is_dom2 : forall fhex c raw,
+  is_data_lineb fhex c raw =
+  clean_lineb raw && Nat.eqb (List.length (split_ws (strip raw))) c
+  && forallb (is_float_tok fhex) (split_ws (strip raw)).
+Proof. exact is_data_lineb_clean. Qed.
+
+(* ---- non-vacuity ---------------------------------------------------------------------------- *)
+(* toy oracles: the default format prints the sample text as it is, any other format appends
+   a digit; float() = decimal literals; "%.5f" % pi has 7 characters *)
+Definition ex_fmtv (f t : list N) : list N := match f with [] => t | _ => t ++ s2l "0" end.
+Definition ex_fmt_pi (f : list N) : list N := s2l "3.14159".
+Definition ex_fhex (t : list N) : option (list N) :=
+  match py_float_dec t with Some _ => Some t | None => None end.
+Definition ex_fstr (t : list N) : list N := t.
+Definition ex_nt : list N := s2l "-999.25".
+
+(* spacer " ", automatic field width (10), column 1 has its own format, width 24 *)
+Definition ex_o : wopts :=
+  mkwopts None (Some true) [] [(1%nat, s2l "%.2f")] LAuto [] [32%N] 24 60 (s2l "~ASCII") false.
+(* no spacer at all, fixed field width 10: separation comes from the right-justification *)
+Definition ex_o2 : wopts :=
+  mkwopts None (Some true) [] [] (LFixed 10) [] [] 20 60 (s2l "~ASCII") false.
+(* no spacer, field width 9 = the length of the longest token: outside the domain *)
+Definition ex_o3 : wopts :=
+  mkwopts None (Some true) [] [] (LFixed 9) [] [] 20 60 (s2l "~ASCII") false.
+
+Definition ex_rows : list (list cell) :=
+  [ [CNum (s2l "100.5"); CNum (s2l "2.5"); CNaN; CNum (s2l "-1e-05")];
+    [CNum (s2l "101.0"); CNaN; CNum (s2l "-3"); CNum (s2l "12345.678")] ].
+
+Definition ex_rts (o : wopts) : list (list N) :=
+  match opt_all (map (row_text ex_fmtv ex_fmt_pi o (Some ex_nt) 0) ex_rows) with Some r => r | None => [] end.
+
+Example C01_ex_lines :
+  ex_rts ex_o = [ s2l "     100.5       2.50    -999.25     -1e-05";
+                  s2l "     101.0    -999.25         -3  12345.678" ] /\
+  ex_rts ex_o2 = [ s2l "     100.5       2.5   -999.25    -1e-05";
+                   s2l "     101.0   -999.25        -3 12345.678" ].
+Proof. split; vm_compute; reflexivity. Qed.
+
+Example C01_ex_wrapped :
+  flat_map (TextWrap.wrap 24) (ex_rts ex_o) =
+  [ s2l "     100.5       2.50"; s2l "-999.25     -1e-05";
+    s2l "     101.0    -999.25"; s2l "-3  12345.678" ] /\
+  TextWrap.wrap 4 (s2l "  12345.678   1 2   3") = [ s2l "12345.678"; s2l "1 2"; s2l "3" ].
+Proof. split; vm_compute; reflexivity. Qed.
+
+(* every hypothesis of C01_data_roundtrip holds for ex_o (spacer-separated) ... *)
+Example C01_ex_hyps :
+  (0 < 4)%nat /\ ex_rows <> [] /\ Forall (fun row : list cell => List.length row = 4%nat) ex_rows /\
+  Forall (Forall (num_tok ex_fhex)) (tok_matrix ex_fmtv ex_o ex_nt ex_rows) /\
+  forallb is_space (wo_lhs_spacer ex_o) = true /\ forallb is_space (wo_spacer ex_o) = true /\
+  Forall (separated ex_fmt_pi ex_o) (tok_matrix ex_fmtv ex_o ex_nt ex_rows) /\
+  opt_all (map (row_text ex_fmtv ex_fmt_pi ex_o (Some ex_nt) 0) ex_rows) = Some (ex_rts ex_o) /\
+  Forall (fun raw => clean_lineb raw = true) (map (fun l => l ++ [10%N]) (ex_rts ex_o)) /\
+  Forall (fun raw => clean_lineb raw = true)
+         (map (fun l => l ++ [10%N]) (flat_map (TextWrap.wrap 24) (ex_rts ex_o))).
+Proof.
+  split; [repeat constructor|]. split; [discriminate|]. split; [repeat constructor|].
+  split; [apply num_tok_matrixb; vm_compute; reflexivity|].
+  split; [reflexivity|]. split; [reflexivity|].
+  split; [apply separated_matrixb; vm_compute; reflexivity|].
+  split; [vm_compute; reflexivity|].
+  split; apply Forall_forall; apply forallb_forall; vm_compute; reflexivity.
+Qed.
+
+(* ... and for ex_o2, where only the right-justification separates the fields *)
+Example C01_ex_hyps2 :
+  Forall (separated ex_fmt_pi ex_o2) (tok_matrix ex_fmtv ex_o2 ex_nt ex_rows) /\
+  Forall (Forall (num_tok ex_fhex)) (tok_matrix ex_fmtv ex_o2 ex_nt ex_rows) /\
+  Forall (fun raw => clean_lineb raw = true) (map (fun l => l ++ [10%N]) (ex_rts ex_o2)).
+Proof.
+  split; [apply separated_matrixb; vm_compute; reflexivity|].
+  split; [apply num_tok_matrixb; vm_compute; reflexivity|].
+  apply Forall_forall; apply forallb_forall; vm_compute; reflexivity.
+Qed.
+
+(* what the theorem then says, computed: unwrapped through both engines, wrapped through the
+   normal engine; the NULL text comes back as the number -999.25 (NaN after C06) *)
+Definition ex_cols : list (list cell) :=
+  [ [CNum (s2l "100.5"); CNum (s2l "101.0")]; [CNum (s2l "2.50"); CNum (s2l "-999.25")];
+    [CNum (s2l "-999.25"); CNum (s2l "-3")]; [CNum (s2l "-1e-05"); CNum (s2l "12345.678")] ].
+Example C01_ex_engines :
+  numpy_engine ex_fhex (map (fun l => l ++ [10%N]) (ex_rts ex_o)) = Some ex_cols /\
+  normal_engine ex_fhex ex_fstr DSpace default_subs 4 (map (fun l => l ++ [10%N]) (ex_rts ex_o)) = DOk ex_cols /\
+  normal_engine ex_fhex ex_fstr DSpace default_subs 4
+    (map (fun l => l ++ [10%N]) (flat_map (TextWrap.wrap 24) (ex_rts ex_o))) = DOk ex_cols /\
+  map (map (mk_num ex_fhex)) (transpose_n 4 (tok_matrix ex_fmtv ex_o ex_nt ex_rows)) = ex_cols.
+Proof. repeat split; vm_compute; reflexivity. Qed.
+
+(* the domain is not trivial: without spacer and without padding two fields run together
+   (ex_o3 is not `separated`), and a run-on line is not clean *)
+Example C01_ex_outside :
+  forallb (separatedb ex_fmt_pi ex_o3) (tok_matrix ex_fmtv ex_o3 ex_nt ex_rows) = false /\
+  map split_ws (ex_rts ex_o3) =
+  [ [s2l "100.5"; s2l "2.5"; s2l "-999.25"; s2l "-1e-05"];
+    [s2l "101.0"; s2l "-999.25"; s2l "-312345.678"] ] /\
+  map clean_lineb [s2l "1.5 2-3"; s2l "1,5 2"; s2l "1.2.3 4"; s2l "1 2 #c"; s2l "1.5 -2e-05 3"]
+  = [false; false; false; false; true].
+Proof. repeat split; vm_compute; reflexivity. Qed.
+
+Print Assumptions C01_padded_tokens.
+Print Assumptions C01_row_tokens.
+Print Assumptions C01_wrap_tokens.
+Print Assumptions C01_wrap_no_blank_line.
+Print Assumptions C01_wrap_fits.
+Print Assumptions C01_chunks.
+Print Assumptions C01_nan_is_null.
+Print Assumptions C01_nan_without_null.
+Print Assumptions C01_num_is_fmt.
+Print Assumptions C01_col_fmt.
+Print Assumptions C01_tok_matrix_nth.
+Print Assumptions C01_lines_defined.
+Print Assumptions C01_lines_tokens.
+Print Assumptions C01_wrapped_tokens.
+Print Assumptions C01_data_roundtrip.
+Print Assumptions C01_roundtrip_cell.
+Print Assumptions C01_clean_is_dom2.
